@@ -32,7 +32,7 @@ func isCacheCall(ci ssa.CallInstruction, field string, methods ...string) bool {
 func c20(c *Ctx) {
 	p, r := c.P, c.R
 	r.Technique = "constant and slice-bound extraction of the target selection; must-pass-through (cut) checks of the candidate gates; writer/reader agreement of the radius cache key and per-payload-type coverage of ping and pong paths; outcome-independence check (no exit that depends on the ENR refresh result before the radius is recorded)"
-	r.Explanation = "Decides: (R1) gossip draws its candidates from the 32 table nodes nearest the content id and offers to candidates[:4] plus at most min(4, rest) of the shuffled rest (so at most 8); (R2) a node becomes a candidate only when its radius was found in the cache, the in-range helper applied to (that node's id, that decoded radius, the content id) is true, and - when a source is given - its id differs from the source; the loop that collects candidates runs over the whole nearest-nodes list (no early exit towards a success return); the cached radius is decoded little-endian (wire value; shared with C06.R1); (R3) every request enqueued carries the full list built from all key/content pairs; (R4) radius bookkeeping: the radius cache is written only by the one update helper (with the radius taken from the payload) and by manual AddEnr (maximum); the cache key is the node id's string form at every reader and writer; for every ping-extension payload type that carries a data radius both the ping path and the pong path dispatch to a processor that feeds that radius to the update helper; on neither path does an exit depend on the outcome of the ENR refresh that precedes the dispatch (a failed refresh must not drop the reported radius); (R5) pong builders answer with the store's current radius. Permit handling is C16. Not decided: randomness quality, 'most recently reported' across concurrent interleavings of pings and pongs."
+	r.Explanation = "Decides: (R1) gossip draws its candidates from the 32 table nodes nearest the content id and offers to candidates[:4] plus at most min(4, rest) of the shuffled rest (so at most 8); (R2) a node becomes a candidate only when its radius was found in the cache, the in-range helper applied to (that node's id, that decoded radius, the content id) is true, and - when a source is given - its id differs from the source; the loop that collects candidates runs over the whole nearest-nodes list (no early exit towards a success return); a candidate's id is compared with the source only where a source is present; the cached radius is decoded little-endian (wire value; shared with C06.R1); (R3) every request enqueued carries the full list built from all key/content pairs; (R4) radius bookkeeping: the radius cache is written only by the one update helper (with the radius taken from the payload) and by manual AddEnr (maximum); the cache key is the node id's string form at every reader and writer; for every ping-extension payload type that carries a data radius both the ping path and the pong path dispatch to a processor that feeds that radius to the update helper; on neither path does an exit depend on the outcome of the ENR refresh that precedes the dispatch (a failed refresh must not drop the reported radius); (R5) pong builders answer with the store's current radius. Permit handling is C16. Not decided: randomness quality, 'most recently reported' across concurrent interleavings of pings and pongs."
 	r.Assumptions = []string{"fastcache is a faithful map", "findNodesCloseToContent returns nodes ordered by distance (C08.R3)"}
 	r.Floor("R1.selection-bounds", 5)
 	r.Floor("R2.candidate-gates", 3)
@@ -271,6 +271,49 @@ func c20(c *Ctx) {
 		})
 		w = core.InstrGuarded(ap, src, nil)
 		r.Check(w == nil, "R2.candidate-gates", pfx+"not-source", p.Pos(ap.Pos()), "only when no source is given or the node is not the source", "content can be gossiped back to the node it came from: "+p.PathString(w))
+		// an absent source excludes nobody: a candidate's id is compared with the source only where
+		// a source is known to be present. Folding "no source" into a zero id makes the node whose
+		// id is all zeros (a legal id) unreachable for gossip without a source.
+		{
+			var srcP *ssa.Parameter
+			for _, pa := range gossip.Params {
+				if isPtrToID(pa.Type()) {
+					srcP = pa
+				}
+			}
+			present := core.AnyFact(func(f core.Fact) bool {
+				return srcP != nil && f.Op == token.NEQ && ((f.X == ssa.Value(srcP) && core.IsNilConst(f.Y)) || (f.Y == ssa.Value(srcP) && core.IsNilConst(f.X)))
+			})
+			var wAbs []*ssa.BasicBlock
+			for _, b := range gossip.Blocks {
+				for _, in := range b.Instrs {
+					bo, ok := in.(*ssa.BinOp)
+					if !ok || (bo.Op != token.NEQ && bo.Op != token.EQL) {
+						continue
+					}
+					isNodeID := func(v ssa.Value) bool {
+						cc, ok := v.(*ssa.Call)
+						return ok && core.CalleeID(cc) == enodeID && core.SameValue(cc.Call.Args[0], node)
+					}
+					var other ssa.Value
+					switch {
+					case isNodeID(bo.X):
+						other = bo.Y
+					case isNodeID(bo.Y):
+						other = bo.X
+					default:
+						continue
+					}
+					if cc, isCall := core.Unwrap(other).(*ssa.Call); isCall && core.CalleeID(cc) == enodeID {
+						continue // compared with another node's id (not a stand-in for the source)
+					}
+					if w2 := core.InstrGuarded(bo, present, nil); w2 != nil && srcP != nil {
+						wAbs = w2
+					}
+				}
+			}
+			r.Check(wAbs == nil, "R2.candidate-gates", pfx+"absent-source-excludes-nobody", p.Pos(ap.Pos()), "a candidate's id is compared with the source only where the source is present", "a candidate's id is compared with a stand-in for the source although no source was given: with no source the node whose id equals the stand-in (e.g. the zero id) is never offered the content: "+p.PathString(wAbs))
+		}
 	}
 
 	// ---- R3 whole batch
